@@ -81,7 +81,7 @@ def generate(rng, tier, n):
                              rng.choice(["dict", "tc"] + sorted(MAPPING_KINDS))]
                 kw = [[k, rng.randint(0, 3)] for k in rng.sample(range(nkeys), rng.randint(1, min(3, nkeys)))]
                 ops.append(["upd_both", first, kw])
-        yield {"w": w, "threshold": t.hex(), "n": rng.randint(1, 4), "probe": rng.randrange(nkeys), "ops": ops}
+        yield {"w": w, "threshold": t.hex(), "n": rng.choice([0, 1, 1, 2, 2, 3, 4, -1, -3, 4999]), "probe": rng.randrange(nkeys), "ops": ops}
 
 
 class _ItemsOnly:
@@ -212,7 +212,7 @@ def to_coq(case, obs):
             _kn(o["mc_all"]), _kn(o["mc_n"]), cN(o["len"]), cN(o["probe"]),
             clist(cnat(k) for k in o["keys"]), clist(cN(v) for v in o["values"]),
             clist(cnat(k) for k in o["elems"])))
-    return "mkCase %s %s %s %s %s" % (cN(case["w"]), cN(math.floor(2 / t)), cnat(case["n"]),
+    return "mkCase %s %s %s %s %s" % (cN(case["w"]), cN(math.floor(2 / t)), cnat(max(case["n"], 0)),   # most_common(n <= 0) is [] = firstn 0
                                        cnat(case["probe"]), clist(steps))
 
 
